@@ -4,6 +4,7 @@
 -/
 import WrapModel.Model.Pybind
 import WrapModel.Model.Matlab.Cpp
+import WrapModel.Props.C05
 
 namespace WrapModel.Props.C15
 open WrapModel WrapModel.Inst WrapModel.Pybind
@@ -76,5 +77,53 @@ theorem C15_matlab_ignored_class_no_effect (cfg : Matlab.MCfg) (c : IClass) (ns 
   unfold Matlab.wrapInstantiatedClass
   simp [h']
   rfl
+
+section MatlabIds
+open WrapModel.Matlab.Ids
+
+theorem sites_sublist {α : Type} {ops₁ ops₂ : List (Op α)} (h : ops₁.Sublist ops₂) : ∀ (n₁ n₂ : Nat),
+    ((sites n₁ ops₁).map (·.2)).Sublist ((sites n₂ ops₂).map (·.2)) := by
+  induction h with
+  | slnil => intro _ _; simp [sites]
+  | cons o _ ih =>
+    intro n₁ n₂
+    cases o with
+    | plain a => simp only [sites, List.map_cons]; exact (ih n₁ (n₂ + 1)).trans (List.sublist_cons_self _ _)
+    | virt a =>
+      simp only [sites, List.map_cons]
+      exact ((ih n₁ (n₂ + 2)).trans (List.sublist_cons_self _ _)).trans (List.sublist_cons_self _ _)
+  | cons_cons o _ ih =>
+    intro n₁ n₂
+    cases o with
+    | plain a => simp only [sites, List.map_cons]; exact (ih (n₁ + 1) (n₂ + 1)).cons_cons _
+    | virt a => simp only [sites, List.map_cons]; exact ((ih (n₁ + 2) (n₂ + 2)).cons_cons _).cons_cons _
+
+/-- **MATLAB gateway: removing allocations removes their call sites only.**  For every allocation history and every
+    sub-history (the allocations of an ignored or deleted class dropped, wherever they stand): the (role, payload)
+    sequence the gateway dispatches for the shorter history is a sub-sequence of the one for the longer history — every
+    surviving call site still reaches the routine (or up-cast) of its own payload, in the same relative order; only
+    the numeric ids shift. -/
+theorem C15_matlab_removal_keeps_other_call_sites {α : Type} (ops₁ ops₂ : List (Op α)) (h : ops₁.Sublist ops₂) :
+    let s₁ := run {} ops₁
+    let s₂ := run {} ops₂
+    ((caseTable s₁.entries s₁.next (s₁.next + 1) 0 none).map (fun x => (x.2.1, x.2.2.payload))).Sublist
+      ((caseTable s₂.entries s₂.next (s₂.next + 1) 0 none).map (fun x => (x.2.1, x.2.2.payload))) := by
+  intro s₁ s₂
+  have e : ∀ ops : List (Op α), (caseTable (run {} ops).entries (run {} ops).next ((run {} ops).next + 1) 0 none).map
+      (fun x => (x.2.1, x.2.2.payload)) = (sites 0 ops).map (·.2) := by
+    intro ops
+    have := WrapModel.Props.C05.C05_dispatch_table_is_call_sites ops
+    simp only at this
+    rw [← this, List.map_map]
+    rfl
+  show List.Sublist (List.map _ (caseTable (run {} ops₁).entries _ _ 0 none)) (List.map _ (caseTable (run {} ops₂).entries _ _ 0 none))
+  rw [e ops₁, e ops₂]
+  exact sites_sublist h 0 0
+
+/-- non-vacuity: the virtual class `B` removed from between `a` and `c` -/
+example : [Op.plain "a", Op.plain "c"].Sublist [Op.plain "a", Op.virt "B", Op.plain "c"] :=
+  .cons_cons _ (.cons _ (.cons_cons _ .slnil))
+
+end MatlabIds
 
 end WrapModel.Props.C15
